@@ -127,7 +127,7 @@ def mstr(model, term):
     return _re.sub(r"\\u\{([0-9a-fA-F]+)\}", lambda m: chr(int(m.group(1), 16)), txt)
 
 
-def check_sat_fresh(formulas, timeout_ms=10000, seed=0, cvc5_first=False):
+def check_sat_fresh(formulas, timeout_ms=10000, seed=0, cvc5_first=False, cvc5_only=False):
     """z3 briefly, then /usr/bin/cvc5 --strings-exp on the formulas AS GENERATED (smt2 text taken before any z3 check),
     then z3 with the full budget.  'sat' is only ever taken from z3 (it carries the model for the witness)."""
     import os
@@ -146,7 +146,7 @@ def check_sat_fresh(formulas, timeout_ms=10000, seed=0, cvc5_first=False):
 
     text = "(set-logic ALL)\n" + mk(1000).to_smt2()
     reason = ""
-    plan = (min(timeout_ms, 250 if cvc5_first else 1500), None, timeout_ms // 2, timeout_ms)
+    plan = (None,) if cvc5_only else (min(timeout_ms, 250 if cvc5_first else 1500), None, timeout_ms // 2, timeout_ms)
     for attempt, budget in enumerate(plan):
         if budget is None:
             if not os.path.exists(CVC5):
@@ -840,3 +840,80 @@ def check_token_stream(toks, work, stream, gaps):
             return f"token {tok}={val!r} starts at offset {start} of the working source {work!r}: lineno {ln}, direct count {want}"
         off += len(val)
     return None
+
+
+# ================================================================== hard wall-clock limits for solver-heavy tasks
+
+
+class HardTask:
+    """Runs a task in a forked child that is KILLED after `seconds` (z3 does not always honour its own timeout on goals
+    mixing quantified axioms with strings) and retried with shifted fresh-name counters and another seed (a different search
+    order).  If every attempt is killed, the task's obligations are undecided - never discharged, never a violation."""
+
+    def __init__(self, inner, seconds=120, attempts=3):
+        self.inner, self.seconds, self.attempts = inner, seconds, attempts
+        self.prop, self.name, self.kind = inner.prop, inner.name, inner.kind
+        fk = getattr(inner, "finding_key", None)
+        if fk:
+            self.finding_key = fk
+
+    def replay(self, witness):
+        self.inner.prop = self.prop
+        return self.inner.replay(witness)
+
+    def run(self, tier, seed):
+        import json
+        import os
+        import select
+        import signal
+        import time
+        from pyvc import values
+        last = ""
+        for k in range(self.attempts):
+            r, w = os.pipe()
+            pid = os.fork()
+            if pid == 0:  # child
+                try:
+                    os.close(r)
+                    for _ in range(k * 211):
+                        values.fresh_name("shift")
+                    self.inner.prop = self.prop
+                    rs = self.inner.run(tier, seed + 7919 * k)
+                    payload = json.dumps({"results": [x.to_json() for x in rs], "extracted": list(extract.EXTRACTED.values()),
+                                          "used": sorted(models.USED)}, default=str).encode()
+                    with os.fdopen(w, "wb") as f:
+                        f.write(payload)
+                finally:
+                    os._exit(0)
+            os.close(w)
+            t0 = time.time()
+            chunks = []
+            killed = False
+            with os.fdopen(r, "rb") as f:
+                while True:
+                    left = self.seconds - (time.time() - t0)
+                    if left <= 0:
+                        killed = True
+                        break
+                    ready, _, _ = select.select([f], [], [], min(left, 1.0))
+                    if ready:
+                        b = os.read(f.fileno(), 1 << 16)
+                        if not b:
+                            break
+                        chunks.append(b)
+            if killed:
+                try:
+                    os.kill(pid, signal.SIGKILL)
+                except OSError:
+                    pass
+            os.waitpid(pid, 0)
+            if killed or not chunks:
+                last = f"attempt {k + 1}: the solver did not return within {self.seconds} s (child killed)" if killed else f"attempt {k + 1}: child died without a result"
+                continue
+            data = json.loads(b"".join(chunks).decode())
+            for e in data["extracted"]:
+                extract.EXTRACTED.setdefault(e["qualname"], e)
+            models.USED.update(data["used"])
+            return [Res(j["name"], j["status"], j.get("backend", ""), j.get("seconds", 0.0), j.get("detail", ""), j.get("kind", "vc"),
+                        j.get("witness")) for j in data["results"]]
+        return [Res(self.name + ".solver", "unknown", "z3", 0.0, last, self.kind)]
